@@ -104,7 +104,11 @@ class FunctionData:
                     (pos, IC10Instruction("pop", [], ra, indent=indent))
                     for pos in set(pop_ra_positions)
                 ]
-                for pos, instr in sorted(all_inserts, key=lambda x: x[0], reverse=True):
+                # an exit point may sit directly behind the argument pops (a function that
+                # starts with an unconditional return): 'push ra' must then come first
+                for pos, instr in sorted(
+                    all_inserts, key=lambda x: (x[0], x[1].op != "push"), reverse=True
+                ):
                     self.code.insert(pos, instr)
             else:
                 self.code.insert(1, IC10Instruction("push", [ra], indent=indent))
